@@ -25,7 +25,7 @@ PROPS = {
         "assumptions": ["downstream code never sees the feature: checked by the frame scan above"],
     },
     "C03": {
-        "units": {"front": FRONT_PARSE, "solver": ["solve_expression", "lemma_syntax_to_wf", "lemma_match_unfold", "lemma_ids_wf"], "matrix": MATRIX_FNS, "rewrite": REWRITE_FNS},
+        "units": {"front": FRONT_PARSE, "solver": ["solve_expression", "solve", "match_all", "match_of", "slow_aho", "search", "lemma_syntax_to_wf", "lemma_match_unfold", "lemma_ids_wf", "lemma_matrix_cells"], "matrix": MATRIX_FNS, "rewrite": REWRITE_FNS},
         "explanation": "every panic site of the extracted solver functions is discharged from wf(); the condition parser is proved to establish wf_syntax (operands of and/or/not are predicates), and lemma_syntax_to_wf bridges the two; matrix() is proved panic-free (char::from_u32(..).expect, the final expect, arithmetic) and to return a well-formed expression - in particular every Matrix cell only asks for column keys below the table width, which is what the solver's Matrix arm needs; rewrite() / rewrite_search() are proved panic-free (the rebuilt regex may fail to build: the original is kept) and shape-preserving, hence wf-preserving",
         "assumptions": ["identifier-existence scan in the serde visitor (rule.rs:101-125) is not under contract: closed(e, ids) is an assumed link",
                         "identifier bodies built by parse_mapping are assumed well formed (ids_wf)"],
@@ -92,14 +92,14 @@ PROPS = {
     },
     "C08": {
         "units": {"solver": ["solve_expression", "match_all", "match_of", "slow_aho", "lemma_of3_single", "lemma_bit_or", "lemma_bit_val", "lemma_bit_zero", "lemma_seen_step", "lemma_seen_all", "lemma_count_true_step", "lemma_count_true_mono", "lemma_match_unfold"], "batch": BATCH_FNS},
-        "explanation": "all(X)/of(X, n) over identifier groups count the group's entries (solve_expression Match arms: and3 / of3 over sems); over a merged search they count distinct members: slow_aho's 64-bit bitmap is proved to equal ac_count (each member once, however often it occurs), match_all/match_of are proved equal to sem_all_leaf/sem_of_leaf for string, array and cast scalar values; a single predicate counts as a list of one member; parser side: the end of parse_mapping's Sequence arm (slice seqtail) is proved to keep the all()/of() quantifier around the batched group - a single un-merged member may stand for itself only under all(k) and of(k, 1), where lemma_single_quant proves it means the same - and lemma_ac_member proves that a merged automaton hits member p exactly when member p matches on its own, so slow_aho's distinct-member count is the number of matching members as written",
-        "assumptions": ["slow_aho's HashSet branch (>= 64 needles) is a hole", "parse_mapping outside the two slices (Yaml walk, key parsing, classification of members) is not under contract", "Matrix forms of all()/of() are holes",
+        "explanation": "all(X)/of(X, n) over identifier groups count the group's entries (solve_expression Match arms: and3 / of3 over sems); over a merged search they count distinct members: slow_aho's 64-bit bitmap is proved to equal ac_count (each member once, however often it occurs), match_all/match_of are proved equal to sem_all_leaf/sem_of_leaf for string, array and cast scalar values; a single predicate counts as a list of one member; the Matrix forms of all()/of() (match_all / match_of over an optimised or-group) are proved against rows_all_eval / rows_of_eval: every row true, resp. at least n rows true, over the same cache fold as the Matrix arm; parser side: the end of parse_mapping's Sequence arm (slice seqtail) is proved to keep the all()/of() quantifier around the batched group - a single un-merged member may stand for itself only under all(k) and of(k, 1), where lemma_single_quant proves it means the same - and lemma_ac_member proves that a merged automaton hits member p exactly when member p matches on its own, so slow_aho's distinct-member count is the number of matching members as written",
+        "assumptions": ["slow_aho's HashSet branch (>= 64 needles) is a hole", "parse_mapping outside the four slices (Yaml walk, key parsing, numbers/booleans/nested members of a list) is not under contract",
                         "known finding C08-KF1: all()/of() over a list batched into more than one search evaluates each search as 'some member matches'"],
     },
     "C16": {
         "units": {"solver": ["solve_expression", "match_all", "match_of", "solve", "Cache::find", "Passthrough::find"], "paths": ["ObjectV::find", "ObjectVS::find"], "frame": FRAME_FNS},
         "explanation": "Document::find carries the precondition dm_permits(self.model(), key); solve/solve_expression/match_all/match_of require permitted(e, ids, doc) = every key in asks(e, ids) (the field names written in the rule; for a nested block only the block's own key) is permitted, and every find call site in them is a discharged obligation: the key passed is one the rule writes. The private Cache document only permits one-character column keys below its width, and the Matrix arm of solve_expression is verified: the user's document is only asked for the column names, the synthetic one-character keys only reach the Cache. lemma_frame (induction over sem3, incl. the Matrix cache fold): two documents that answer every asked key alike get the same three-valued result - so adding, removing or altering a field no predicate addresses cannot change a verdict.",
-        "assumptions": ["lemma_frame excludes all()/of() applied directly to a Matrix (uninterpreted hole of the solver spec: frame_ok)", "nested all()-of-blocks over an array and matrix-in-array arms of solve_expression are holes"],
+        "assumptions": ["lemma_frame excludes all()/of() applied directly to a Matrix (frame_ok): those forms now have a definition (rows_all_eval / rows_of_eval) but the frame induction over them is not written", "nested all()-of-blocks over an array and matrix-in-array arms of solve_expression are holes"],
     },
     "C17": {
         "units": {"solver": ["solve_expression", "lemma_or3_reorder", "lemma_and3_truth_reorder", "lemma_reorder_same_values", "lemma_binary_commute", "lemma_of0_reorder", "lemma_group_reorder", "lemma_and3_true_iff", "lemma_and2", "lemma_or2", "search"], "matrix": MATRIX_FNS, "batch": BATCH_FNS},
